@@ -61,6 +61,14 @@ class Result:
         self.scenario = scenario
 
 
+def _root_of(i):
+    seen = 0
+    while getattr(i, "parent", None) is not None and seen < 50:
+        i = i.parent
+        seen += 1
+    return i
+
+
 def observe(rec, interp, label, census=None):
     """Public-API observation of an interpreter."""
     try:
@@ -86,7 +94,10 @@ def observe(rec, interp, label, census=None):
         "system": dict(snap.get("system") or {}) if isinstance(snap.get("system") or {}, dict) else repr(snap.get("system")),
         "system_live": system,
         "census": census() if census else None,
-        "interps": tuple((i.id, i.status, getattr(i.parent, "id", None)) for i in (_ACTIVE.get("interps") or []) if i is not interp),
+        # other interpreters created in this run that descend from the observed one (restored generations that were
+        # abandoned are somebody else's descendants)
+        "interps": tuple((i.id, i.status, getattr(i.parent, "id", None)) for i in (_ACTIVE.get("interps") or [])
+                         if i is not interp and _root_of(i) is interp),
     }
     rec.rec("obs", label, interp.id, o)
     return o
